@@ -509,8 +509,15 @@ ParseIntOpen(s, rd) ==
         /\ \/ p.R = 10 /\ SigCount(p.Z) > 20
            \/ p.R \notin {2, 4, 8, 10, 16, 32} /\ BnBitLen(BnOfRadix(p.Z, p.R)) > 53
 (* 9.3.1 / 7.8.3 leave the rounding open beyond 20 significant digits: a     *)
-(* conservative test on all decimal digits of the text                       *)
-DecimalOpen(s) == SigCount(SelectSeq(s, IsDigit)) > 20
+(* conservative test on the digits of the longest prefix made of white       *)
+(* space, signs, digits and "." (it contains the mantissa of whatever        *)
+(* decimal literal the text or a prefix of it denotes)                       *)
+RECURSIVE SpanMantChars(_, _)
+SpanMantChars(s, i) ==
+    IF i <= Len(s) /\ (IsDigit(s[i]) \/ IsWS(s[i]) \/ s[i] \in {43, 45, 46}) THEN SpanMantChars(s, i + 1) ELSE i
+DecimalOpen(s) == SigCount(SelectSeq(SubSeq(s, 1, SpanMantChars(s, 1) - 1), IsDigit)) > 20
+(* literals: legacy octal literals (B.1.1) are exact at any length *)
+LitOpen(u) == IF Len(u) >= 2 /\ u[1] = 48 /\ u[2] >= 48 /\ u[2] <= 55 THEN FALSE ELSE DecimalOpen(u)
 
 -----------------------------------------------------------------------------
 (* 15.1.2.3 parseFloat(string): the longest prefix that is a                 *)
